@@ -151,10 +151,22 @@ def main():
             bad += 1
     summary = {"cases": len(results), "ok": sum(r["status"] == "ok" for r in results), "skipped": sum(r["status"] == "skipped" for r in results), "unexpected": bad}
     print(json.dumps(summary))
-    if not only:
+    rp = os.path.join(VERIF, "selftest", "RESULTS.json")
+    head = sh("git -C %s rev-parse --short HEAD" % REPO)[1].strip()
+    if "--merge" in sys.argv and os.path.exists(rp):
+        # a partial run (some kinds, or --only): replace the cases that were run in the recorded results, keep the others
+        # (cases that no longer exist are dropped)
+        old = json.load(open(rp))
+        ran = {r["id"]: r for r in results}
+        live = set(c["id"] for c in cases("fixed,seeded,mutant,benign".split(",")))
+        merged = [ran.pop(r["id"], r) for r in old["results"] if r["id"] in live] + list(ran.values())
+        msum = {"cases": len(merged), "ok": sum(r["status"] == "ok" for r in merged), "skipped": sum(r["status"] == "skipped" for r in merged),
+                "unexpected": sum(r["status"] == "UNEXPECTED" for r in merged)}
+        json.dump({"repo_head": head, "summary": msum, "results": merged}, open(rp, "w"), indent=1)
+        print("merged: " + json.dumps(msum))
+    elif not only:
         os.makedirs(os.path.join(VERIF, "selftest"), exist_ok=True)
-        head = sh("git -C %s rev-parse --short HEAD" % REPO)[1].strip()
-        json.dump({"repo_head": head, "summary": summary, "results": results}, open(os.path.join(VERIF, "selftest", "RESULTS.json"), "w"), indent=1)
+        json.dump({"repo_head": head, "summary": summary, "results": results}, open(rp, "w"), indent=1)
     return 1 if bad else 0
 
 
